@@ -366,7 +366,10 @@ variable {A D Ω : Type}
 
 /-- `Dataset.materialize(path=path)`.  `compute` stands for steps 1–3 of the method (statistics,
     conversion of `self.df`, `_update_col_stats`); `ω` is whatever else the computation may depend
-    on (state of a user-supplied embedder, …). -/
+    on (state of a user-supplied embedder, …).
+    One simplification: the code sets `_is_materialized` before the final `save`, so if that `save`
+    raised the object would stay materialised; here the whole call is an error.  `save` cannot raise
+    on a well-formed frame (`loadVal_saveVal`), which is the only case the theorems speak about. -/
 def DS.materialize (compute : Ω → A → D → Except String (Frame α × σ)) (ω : Ω)
     (ds : DS A D α σ) (path : Option String) (st : Store (FileVal α σ)) :
     Except String (DS A D α σ × Store (FileVal α σ)) :=
